@@ -154,7 +154,7 @@ pub struct MatchHunk {
     pub char_offset: u32, // Character offset from start of line (for JS/frontend)
     pub variant: String,
     pub content: String, // The word/variant being replaced
-    #[serde(skip_serializing_if = "String::is_empty")]
+    #[serde(default, skip_serializing_if = "String::is_empty")]
     pub replace: String, // The replacement word/variant
     #[ts(type = "number")]
     pub start: usize,
@@ -190,7 +190,7 @@ fn is_empty_path(p: &Path) -> bool {
 pub struct Rename {
     #[ts(type = "string")]
     pub path: PathBuf,
-    #[serde(skip_serializing_if = "is_empty_path")]
+    #[serde(default, skip_serializing_if = "is_empty_path")]
     #[ts(type = "string")]
     pub new_path: PathBuf,
     pub kind: RenameKind,
